@@ -24,7 +24,11 @@ ErrorItems == {Er("hash_error", 1, 0, 0), Er("unknown_dir", 1, 0, 0), Er("unterm
                Er("continue_outside", 3, 1, 1), Er("wrong_return", 3, 1, 1),
                \* the same with the offending token in column 1 of its line
                Er("unknown_id0", 3, 1, 1), Er("unknown_func0", 3, 1, 1), Er("break_outside0", 3, 1, 1), Er("subscript_scalar0", 4, 2, 2),
-               Er("too_many_args0", 4, 2, 2), Er("wrong_return0", 3, 1, 1), Er("pest0", 2, 1, 1)}
+               Er("too_many_args0", 4, 2, 2), Er("wrong_return0", 3, 1, 1), Er("pest0", 2, 1, 1),
+               \* errors raised by the #if / #elif expression evaluator (they take the file name from the preprocessor's context)
+               Er("if_undef", 1, 0, 0), Er("elif_undef", 3, 1, 1), Er("if_trailing", 1, 0, 0),
+               \* errors raised by the code generator through compiler_error (Error::Compiler)
+               Er("cond_partial", 4, 2, 2), Er("cond_partial0", 4, 2, 2), Er("arith_partial", 4, 2, 2), Er("arith_partial0", 4, 2, 2)}
 
 RECURSIVE Sum(_, _)
 Sum(s, i) == IF i > Len(s) THEN 0 ELSE s[i].n + Sum(s, i + 1)
